@@ -5,7 +5,10 @@
 
 #include "seqx.h"
 
+#include <csetjmp>
+#include <csignal>
 #include <cstdlib>
+#include <cstring>
 #include <set>
 #include <sstream>
 #include <string>
@@ -246,6 +249,53 @@ struct CountingHeap {
       free(p);
   }
 };
+
+// ---------------------------------------------------------------------------
+// Runs f(); returns false if it raised SIGABRT (a failed assert), SIGSEGV, or
+// - when secs > 0 - did not return within secs seconds.  Used only at the few
+// places where the unchanged library is known to die or spin, so that the
+// verdict carries a precise key, the worker survives, and the very same check
+// passes once the library is repaired.
+// ---------------------------------------------------------------------------
+inline sigjmp_buf& survive_jb() {
+  static sigjmp_buf jb;
+  return jb;
+}
+inline volatile int& survive_sig() {
+  static volatile int s = 0;
+  return s;
+}
+inline void survive_handler(int sig) {
+  survive_sig() = sig;
+  siglongjmp(survive_jb(), 1);
+}
+template <class F>
+inline bool survives(F f, int secs = 0, int rearm = 0) {
+  struct sigaction sa, o1, o2, o3;
+  memset(&sa, 0, sizeof sa);
+  sa.sa_handler = survive_handler;
+  sigemptyset(&sa.sa_mask);
+  sa.sa_flags = SA_NODEFER;
+  sigaction(SIGABRT, &sa, &o1);
+  sigaction(SIGSEGV, &sa, &o2);
+  if (secs)
+    sigaction(SIGALRM, &sa, &o3);
+  bool ok       = false;
+  survive_sig() = 0;
+  if (sigsetjmp(survive_jb(), 1) == 0) {
+    if (secs)
+      alarm(secs);
+    f();
+    ok = true;
+  }
+  sigaction(SIGABRT, &o1, nullptr);
+  sigaction(SIGSEGV, &o2, nullptr);
+  if (secs) {
+    sigaction(SIGALRM, &o3, nullptr);
+    alarm(rearm);
+  }
+  return ok;
+}
 
 } // namespace c14
 #endif
